@@ -419,3 +419,230 @@ Section Exact.
     rewrite (behind_first p x s' Hs), (rank_first p x s' Hs). auto.
   Qed.
 End Exact.
+
+(* ================= corollaries, in the words of the property ================= *)
+Lemma last_split {A} (l : list A) : l = [] \/ exists l' a, l = l' ++ [a].
+Proof.
+  destruct l as [|b l]; [now left|right].
+  destruct (@exists_last A (b :: l) ltac:(discriminate)) as (l' & a & E). eauto.
+Qed.
+
+Section Corollaries.
+  Variable p : cparams.
+  Hypothesis no_prefix : cp_drop p = [].
+
+  Lemma kept_iff m e : sorted m ->
+    (In e (compact_filter p m) <-> In e m /\ kept_spec p m e = true).
+  Proof. intros Hs. rewrite (retention_exact p no_prefix m Hs). apply filter_In. Qed.
+
+  (* the three ways of being kept: (a) above the watermark; (b) before the stop entry of the key
+     (and not itself satisfying the retention-ending condition); (c) being the stop entry of the
+     key, provided it is live or something below overlaps *)
+  Theorem retention_exact_iff m e : sorted m -> In e m ->
+    (In e (compact_filter p m) <->
+       cp_discard p < e_ver e
+       \/ (behind_stop p m e = false /\ stopper p m e = false)
+       \/ (stop_entry p m e = true
+           /\ (deleted_or_expired e (cp_now p) = false \/ cp_overlap p = true))).
+  Proof.
+    intros Hs He. rewrite (kept_iff m e Hs). split.
+    - intros [_ K]. unfold kept_spec in K. apply andb_true_iff in K. destruct K as [K1 K2].
+      apply negb_true_iff in K1. destruct (stopper p m e) eqn:S.
+      + right; right. split; [apply stop_entry_iff; auto|].
+        cbn [negb orb] in K2. apply orb_true_iff in K2. destruct K2 as [K2|K2]; [left|right; auto].
+        now apply negb_true_iff in K2.
+      + right; left; auto.
+    - intros [H|[[H1 H2]|[H1 H2]]]; (split; [exact He|]).
+      + now apply kept_spec_above.
+      + unfold kept_spec. now rewrite H1, H2.
+      + apply stop_entry_iff in H1. destruct H1 as [S B]. unfold kept_spec. rewrite B, S.
+        cbn [negb andb orb]. destruct H2 as [H2|H2]; rewrite H2; [reflexivity|apply orb_true_r].
+  Qed.
+
+  (* "keeps the newest NumVersionsToKeep versions": an entry with fewer than NumVersionsToKeep
+     counted entries of its key above it, none of which is a delete / expired / discard-earlier
+     entry, is kept if it is live itself (counted or merge entry alike) *)
+  Theorem keeps_newest_nkeep m e :
+    sorted m -> In e m ->
+    rank p m e < cp_nkeep p ->
+    (forall x, In x m -> e_key x = e_key e -> e_ver e < e_ver x ->
+       e_ver x <= cp_discard p -> is_merge x = false ->
+       deleted_or_expired x (cp_now p) = false /\ has_discard x = false) ->
+    deleted_or_expired e (cp_now p) = false ->
+    In e (compact_filter p m).
+  Proof.
+    intros Hs He Hr Hn Hl. apply kept_iff; auto. split; auto.
+    unfold kept_spec. rewrite Hl. cbn [negb]. rewrite orb_true_r. cbn [orb]. rewrite andb_true_r.
+    apply negb_true_iff. destruct (behind_stop p m e) eqn:B; auto. exfalso.
+    apply behind_stop_iff in B. destruct B as (x & Hx & Kx & Vx & Sx).
+    apply stopper_iff in Sx. destruct Sx as (V & M & C).
+    destruct (Hn x Hx Kx Vx V M) as [D1 D2].
+    assert (Lt : rank p m x < rank p m e).
+    { apply rank_lt; auto; [apply newer_of_iff; auto|apply counted_iff; auto]. }
+    destruct C as [C|[C|C]]; [congruence|congruence|lia].
+  Qed.
+
+  (* "stopping at (and dropping older than)": whatever is older than an entry of its key that
+     satisfies the retention-ending condition is dropped, merge entries included *)
+  Theorem drops_behind_stopper m s e :
+    sorted m -> In s m -> stopper p m s = true ->
+    e_key e = e_key s -> e_ver e < e_ver s -> ~ In e (compact_filter p m).
+  Proof.
+    intros Hs Hsm St Hk Hv Hin. apply kept_iff in Hin; auto. destruct Hin as [_ K].
+    assert (B : behind_stop p m e = true) by (apply behind_stop_iff; exists s; auto).
+    unfold kept_spec in K. rewrite B in K. discriminate.
+  Qed.
+
+  Theorem stops_at_marker m s e :
+    sorted m -> In s m -> stop_entry p m s = true ->
+    e_key e = e_key s -> e_ver e < e_ver s -> ~ In e (compact_filter p m).
+  Proof.
+    intros Hs Hsm St. apply stop_entry_iff in St. destruct St as [St _].
+    now apply drops_behind_stopper.
+  Qed.
+
+  (* ... and everything of the key that is newer than its stop entry is kept *)
+  Theorem kept_before_stop m s e :
+    sorted m -> In s m -> stop_entry p m s = true ->
+    In e m -> e_key e = e_key s -> e_ver s < e_ver e -> In e (compact_filter p m).
+  Proof.
+    intros Hs Hsm St He Hk Hv. apply stop_entry_iff in St. destruct St as [St Bs].
+    apply kept_iff; auto. split; auto. unfold kept_spec.
+    assert (Se : stopper p m e = false) by (apply (behind_stop_false p m s e Bs); auto).
+    assert (Be : behind_stop p m e = false).
+    { destruct (behind_stop p m e) eqn:B; auto. apply behind_stop_iff in B.
+      destruct B as (x & Hx & Kx & Vx & Sx).
+      rewrite (behind_stop_false p m s x Bs Hx) in Sx; [discriminate|congruence|lia]. }
+    now rewrite Be, Se.
+  Qed.
+
+  (* a key without any retention-ending entry loses nothing *)
+  Theorem keeps_all_without_stop m e :
+    sorted m -> In e m ->
+    (forall x, In x m -> e_key x = e_key e -> stopper p m x = false) ->
+    In e (compact_filter p m).
+  Proof.
+    intros Hs He Hno. apply kept_iff; auto. split; auto. unfold kept_spec.
+    rewrite (Hno e He eq_refl).
+    replace (behind_stop p m e) with false; [reflexivity|].
+    symmetry. destruct (behind_stop p m e) eqn:B; auto. apply behind_stop_iff in B.
+    destruct B as (x & Hx & Kx & _ & Sx). rewrite (Hno x Hx Kx) in Sx. discriminate.
+  Qed.
+
+  (* merge-operator entries never count and never stop: at or below the watermark they are kept
+     exactly as long as no retention-ending entry of their key precedes them *)
+  Theorem merge_entries_kept_until_marker m e :
+    sorted m -> In e m -> is_merge e = true ->
+    (In e (compact_filter p m) <->
+     forall x, In x m -> e_key x = e_key e -> e_ver e < e_ver x -> stopper p m x = false).
+  Proof.
+    intros Hs He Hm. rewrite (kept_iff m e Hs).
+    assert (Se : stopper p m e = false).
+    { unfold stopper, counted. rewrite Hm. cbn [negb]. now rewrite andb_false_r. }
+    unfold kept_spec. rewrite Se. cbn [negb orb]. rewrite andb_true_r. split.
+    - intros [_ B] x Hx Kx Vx. apply negb_true_iff in B. eapply behind_stop_false; eauto.
+    - intros H. split; auto. apply negb_true_iff.
+      destruct (behind_stop p m e) eqn:B; auto. apply behind_stop_iff in B.
+      destruct B as (x & Hx & Kx & Vx & Sx). rewrite (H x Hx Kx Vx) in Sx. discriminate.
+  Qed.
+
+  (* an entry that is not behind a retention-ending entry has fewer than NumVersionsToKeep
+     counted entries above it (this is where 1 <= NumVersionsToKeep is needed) *)
+  Lemma not_behind_rank_lt m : sorted m -> 1 <= cp_nkeep p ->
+    forall pre e post, m = pre ++ e :: post -> behind_stop p m e = false ->
+    rank p m e < cp_nkeep p.
+  Proof.
+    intros Hs Hn pre. induction pre as [|x pre IH] using rev_ind; intros e post Hm Hb.
+    - cbn [app] in Hm. subst m. rewrite (rank_first p e post Hs). lia.
+    - rewrite <- app_assoc in Hm. cbn [app] in Hm.
+      destruct (bytes_eqb (e_key e) (e_key x)) eqn:K.
+      + apply bytes_eqb_eq in K. rewrite (rank_next_same p m pre x e post Hm Hs K).
+        rewrite (behind_next_same p m pre x e post Hm Hs K) in Hb.
+        apply orb_false_iff in Hb. destruct Hb as [Hb1 Hb2].
+        specialize (IH x (e :: post) Hm Hb1). unfold stopper, stop_cond in Hb2.
+        destruct (counted p x); [|lia]. cbn [andb] in Hb2.
+        apply orb_false_iff in Hb2. destruct Hb2 as [_ Hb2].
+        apply orb_false_iff in Hb2. destruct Hb2 as [_ Hb2]. lia.
+      + assert (Kn : e_key e <> e_key x) by (intros E; apply bytes_eqb_eq in E; congruence).
+        rewrite (rank_next_other p m pre x e post Hm Hs Kn). lia.
+  Qed.
+
+  (* "keeps the newest NumVersionsToKeep versions" as an upper bound: at most NumVersionsToKeep
+     counted entries of any key survive *)
+  Theorem at_most_nkeep_live_below_watermark m k :
+    sorted m -> 1 <= cp_nkeep p ->
+    N.of_nat (length (filter (fun e => bytes_eqb (e_key e) k && counted p e) (compact_filter p m)))
+    <= cp_nkeep p.
+  Proof.
+    intros Hs Hn. rewrite (retention_exact p no_prefix m Hs).
+    set (K := filter _ (filter _ m)).
+    assert (HKs : sorted K) by (apply sorted_filter, sorted_filter, Hs).
+    assert (HK : forall z, In z K ->
+               In z m /\ e_key z = k /\ counted p z = true /\ kept_spec p m z = true).
+    { intros z Hz. apply filter_In in Hz. destruct Hz as [Hz1 Hz2].
+      apply filter_In in Hz1. destruct Hz1 as [Hz0 Hz1].
+      apply andb_true_iff in Hz2. destruct Hz2 as [A B]. apply bytes_eqb_eq in A. auto. }
+    clearbody K. destruct (last_split K) as [->|(L & z & ->)]; [cbn [length]; lia|].
+    destruct (HK z) as (Hzm & Hzk & Hzc & Hzs); [apply in_or_app; right; now left|].
+    assert (Bz : behind_stop p m z = false).
+    { unfold kept_spec in Hzs. apply andb_true_iff in Hzs. destruct Hzs as [Hzs _].
+      now apply negb_true_iff in Hzs. }
+    destruct (in_split z m Hzm) as (pre & post & Em).
+    pose proof (not_behind_rank_lt m Hs Hn pre z post Em Bz) as Rz.
+    assert (Hlen : (length L <= length (filter (fun x => newer_of z x && counted p x) m))%nat).
+    { apply NoDup_incl_length.
+      - pose proof (sorted_NoDup _ HKs) as ND. apply NoDup_remove_1 in ND.
+        now rewrite app_nil_r in ND.
+      - intros l Hl. destruct (HK l) as (Hlm & Hlk & Hlc & _); [apply in_or_app; now left|].
+        apply filter_In. split; auto. rewrite Hlc, andb_true_r. apply newer_of_iff.
+        split; [congruence|]. apply lt_ent_same_key; [|congruence].
+        apply (sorted_app_lt L [z] l z HKs Hl). now left. }
+    rewrite app_length. cbn [length]. unfold rank in Rz. lia.
+  Qed.
+
+  (* ---- NumVersionsToKeep = 0 (not rejected by Options): the count rule compares
+     numVersions == NumVersionsToKeep after the increment, so it never fires and the setting
+     behaves as "keep every version" (badger's own backup command relies on <= 0 meaning all) *)
+  Lemma nkeep_zero_count_rule_never_fires n e :
+    cp_nkeep p = 0 -> stop_cond p n e = deleted_or_expired e (cp_now p) || has_discard e.
+  Proof.
+    intros H. unfold stop_cond. rewrite H. replace (n + 1 =? 0) with false by lia.
+    now rewrite orb_false_r.
+  Qed.
+
+  Theorem nkeep_zero_keeps_every_version m e :
+    cp_nkeep p = 0 -> sorted m -> In e m ->
+    (forall x, In x m -> e_key x = e_key e -> e_ver e <= e_ver x ->
+       deleted_or_expired x (cp_now p) = false /\ has_discard x = false) ->
+    In e (compact_filter p m).
+  Proof.
+    intros H0 Hs He Hn. apply kept_iff; auto. split; auto. unfold kept_spec.
+    destruct (Hn e He eq_refl ltac:(lia)) as [De _]. rewrite De. cbn [negb].
+    rewrite orb_true_r. cbn [orb]. rewrite andb_true_r. apply negb_true_iff.
+    destruct (behind_stop p m e) eqn:B; auto. exfalso. apply behind_stop_iff in B.
+    destruct B as (x & Hx & Kx & Vx & Sx). unfold stopper in Sx.
+    rewrite (nkeep_zero_count_rule_never_fires _ _ H0) in Sx.
+    destruct (Hn x Hx Kx ltac:(lia)) as [D1 D2]. rewrite D1, D2 in Sx.
+    now rewrite andb_false_r in Sx.
+  Qed.
+End Corollaries.
+
+(* the bound of at_most_nkeep_live_below_watermark does not extend to NumVersionsToKeep = 0 *)
+Theorem at_most_nkeep_unguarded_refuted :
+  exists p m k, cp_drop p = [] /\ sorted m /\
+    ~ N.of_nat (length (filter (fun e => bytes_eqb (e_key e) k && counted p e) (compact_filter p m)))
+      <= cp_nkeep p.
+Proof.
+  exists (mkCP 10 0 false [] 0), [mkE [7] 9 0 0 0 [1]], [7].
+  split; [reflexivity|]. split; [repeat constructor|]. vm_compute. intros H. now apply H.
+Qed.
+
+(* strictness of the order is needed: with a repeated key@version the loop counts the duplicate,
+   the specification (strictly newer versions) does not *)
+Theorem retention_exact_duplicates_refuted :
+  exists p m, cp_drop p = [] /\ compact_filter p m <> filter (kept_spec p m) m.
+Proof.
+  exists (mkCP 10 2 false [] 0),
+         [mkE [7] 9 0 0 0 [1]; mkE [7] 9 0 0 0 [1]; mkE [7] 8 0 0 0 [2]].
+  split; [reflexivity|]. vm_compute. discriminate.
+Qed.
